@@ -15,6 +15,7 @@ def main():
     if os.environ.get("VERIF_TIER") in ("quick", "thorough"):
         a.tier = os.environ["VERIF_TIER"]
     seed = int(os.environ.get("VERIF_SEED", "0") or 0)
+    os.environ["VERIF_TIER_ACTIVE"] = a.tier
     mod = importlib.import_module("checks." + a.pid.lower())
     try:
         if a.replay:
